@@ -234,7 +234,7 @@ def verify_replay(repo: str, doc: dict) -> dict:
     if doc.get("real"):
         real = run_real(repo, doc["desc"])
         res = real_as_result(doc["desc"], real)
-        with fresh_worker(repo, t["exe"], int(t["hashseed"])) as fl:
+        with fresh_worker(repo, t["exe"], int(t["hashseed"]), int(t.get("pad", 0))) as fl:
             # judge with the template-side oracle (needs the reference table)
             r = fl.groups[0][0].request({"cmd": "c16_judge", "desc": doc["desc"], "result": res})
         classes = sorted({"%s/%s" % _vc(v) for v in r["violations"]})
@@ -316,7 +316,7 @@ def run(repo: str, tier: str, seed: int, replay_dir=None, write_ev=True, jobs=No
         log("seeded: %d base cases, %d runs total, failures so far %d" % (n, cov["evaluations"], len(failures)))
 
         # ---- determinism self-check ------------------------------------------------------
-        djobs = [(0, dict(req, faults=False, n_samples=0, want_digests=True)) for g, req in bjobs[:nd]]
+        djobs = [(0, dict(req, n_samples=0, want_digests=True)) for g, req in bjobs[:nd]]
         pairs = mism = 0
         for r in fleet.run(list(reversed(djobs))):
             for k, v in r["digests"].items():
